@@ -18,7 +18,20 @@ BASE_ASSUME = [
     "checks are compiled into the repository's own packages with go test -overlay from /repo's working tree; the alternate modfile raises the language version to go 1.23 (no loop in the repo changes meaning)",
 ]
 
+MP_ASSUME = BASE_ASSUME + [
+    "frames reach the processor through a compact harness parser (Process) or ProcessFrame; the motion bits used by the oracles are the ones the real detector reported through the listener",
+    "the motion run counts consecutive motion frames since the last still frame or the end of the previous recording (the reading DESIGN.md fixes for C04)",
+]
+
 PROPS = {
+    "C01": {"level": "exploration", "assumptions": MP_ASSUME,
+            "parts": [{"engine": "mp", "test": "TestVF_C01", "quick": (4, 1500), "thorough": (16, 25000)}]},
+    "C02": {"level": "exploration", "assumptions": MP_ASSUME,
+            "parts": [{"engine": "mp", "test": "TestVF_C02", "quick": (4, 1500), "thorough": (16, 25000)}]},
+    "C03": {"level": "exploration", "assumptions": MP_ASSUME,
+            "parts": [{"engine": "mp", "test": "TestVF_C03", "quick": (4, 1500), "thorough": (16, 25000)}]},
+    "C04": {"level": "exploration", "assumptions": MP_ASSUME,
+            "parts": [{"engine": "mp", "test": "TestVF_C04", "quick": (4, 1500), "thorough": (16, 25000)}]},
     "C20": {
         "level": "exploration",
         "assumptions": BASE_ASSUME + ["the limiter's clock is injected through its nowFunc field; arrival times are non-decreasing"],
